@@ -70,6 +70,7 @@ CONSTANTS ProcSeq,     \* updater goroutines, as a sequence (fixes the launch or
           MaxOps,      \* calls per history
           MaxConc,     \* calls in flight at once
           SameSubject, \* TRUE: overlapping calls all name one subject
+          MixSameArt,  \* TRUE: a push and a delete of the SAME artifact may overlap
           LockPut,     \* referrerPut takes muRefTag        (code: TRUE)
           LockDel,     \* referrerDelete takes muRefTag     (code: FALSE)
           LockDelEarly,\* ... and takes it before cacheRL.Delete
@@ -147,6 +148,7 @@ Launch(p, k, a) ==
   /\ Idle(p) /\ \A q \in Procs : Idle(q) => PIdx(p) <= PIdx(q)
   /\ Cardinality(Running) < MaxConc
   /\ SameSubject => \A q \in Running : S(q) = conf.subj[a]
+  /\ MixSameArt \/ \A q \in Running : A(q) = a => op[q].k = k
   /\ op' = [op EXCEPT ![p] = [k |-> k, a |-> a]]
   /\ pc' = [pc EXCEPT ![p] = IF ~Reg THEN "o_run" ELSE IF k = "put" THEN "p_put_rq" ELSE "d_get"]
   /\ left' = left - 1 /\ phase' = "run"
